@@ -1,9 +1,13 @@
 #!/usr/bin/env bash
-# Builds the harness offline from files on disk only.
+# Builds the harness offline from files on disk only (each package separately so that cargo does not
+# unify the scnr features of different harness binaries).
 set -e
 cd "$(dirname "$0")"
 export CARGO_NET_OFFLINE=true
 export CARGO_TARGET_DIR="$(pwd)/harness/target"
 mkdir -p evidence replays
 cd harness
-cargo build --release --offline -p pubcheck -p hookcheck
+for p in pubcheck hookcheck loomcheck; do
+  cargo build --release --offline -p $p
+done
+CARGO_TARGET_DIR="$(pwd)/target/probe" cargo build --release --offline --manifest-path sendsync_probe/Cargo.toml
